@@ -32,16 +32,22 @@ package c06
 //	    if that lies in a live block, else NOT_FOUND (candidates of K: every
 //	    location stored for K since the last reported discard that visibly
 //	    changed K's result, plus what K fell back to at that discard).
-//	(6) mechanism, observed through the decorator: lookups write nothing,
-//	    read <= maximumGetAttempts slots and stop at the first invalid
-//	    record; Put reads/writes <= maximumPutAttempts slots; a valid record
-//	    is only ever overwritten by a strictly newer one (oldest-first
-//	    displacement).
-//	(7) table audit: see (*harness).audit.
+//	(6) every call terminates: the decorator only enforces a generous
+//	    slot-access budget (a hang guard, far above anything the attempt
+//	    limits allow) and that only slots inside the table are touched.
+//
+// NOT asserted (the property does not state them; they are how the unchanged
+// code happens to work and a refactoring may change them freely): the number
+// and order of slot reads/writes of a call, that a lookup stops at the first
+// invalid record, that a lookup writes nothing (the KeyLocationMap interface
+// explicitly permits clean-up during lookups), that a slot is only
+// overwritten by a strictly newer record, and the layout of the table (which
+// slot a record sits in, the probe-sequence invariant). Deviations from that
+// documented mechanism are observed through the decorator and a table audit
+// and are only COUNTED (classes mech_*), as generator-health information.
 
 import (
 	"fmt"
-	"os"
 	"strings"
 
 	"github.com/buildbarn/bb-storage/pkg/blobstore/local"
@@ -393,12 +399,6 @@ func (r res) String() string {
 	return r.l.String()
 }
 
-// blackBoxOnly (VERIF_C06_BLACKBOX=1) switches off the mechanism-level
-// clauses (slot access observation, table audit) so that a sensitivity run can
-// tell which mutations the purely observational clauses (1)-(5) detect on
-// their own. It is never set by the driver.
-var blackBoxOnly = os.Getenv("VERIF_C06_BLACKBOX") == "1"
-
 type fataler interface {
 	Fatalf(format string, args ...any)
 }
@@ -444,6 +444,14 @@ type caseStats struct {
 	equalLocOtherKey, samePutAgain, olderThanVisible                                     int
 	fallbackOlder, fallbackNothing, ownPutLost, hiddenDiscard                            int
 	foundAtLaterAttempt                                                                  int
+	// deviations from the documented mechanism (counted, never asserted)
+	mechGetOverLimit, mechGetReadAfterInvalid, mechGetWrote, mechGetNoRead int
+	mechPutOverLimit, mechPutReadAfterInvalid, mechPutNotNewer, mechAudit  int
+}
+
+func (s *caseStats) mech() int {
+	return s.mechGetOverLimit + s.mechGetReadAfterInvalid + s.mechGetWrote + s.mechGetNoRead +
+		s.mechPutOverLimit + s.mechPutReadAfterInvalid + s.mechPutNotNewer + s.mechAudit
 }
 
 func (s *caseStats) nonTrivial() bool {
@@ -574,13 +582,23 @@ func (h *harness) isLive(blk int) bool {
 	return blk >= h.blocks.released && blk < h.blocks.released+h.blocks.live()
 }
 
-// guarded runs one call into the index and converts a blown slot-access
-// budget (the index does not honour its iteration bounds) into a failure.
+// hangGuard is the slot-access budget of one call into the index. It is not
+// an iteration bound of the property (the property states none): it is far
+// above anything the attempt limits explain (the unchanged code needs at most
+// maximumGetAttempts resp. maximumPutAttempts reads) and only turns a call
+// that would never return (e.g. probing a full table for ever) into a failure
+// instead of a driver timeout.
+func (h *harness) hangGuard() int {
+	return 256 + 16*(int(h.cfg.getAttempts)+h.cfg.putAttempts)
+}
+
+// guarded runs one call into the index and converts a blown hang guard into
+// a failure.
 func (h *harness) guarded(what func() string, fn func()) {
 	defer func() {
 		if r := recover(); r != nil {
 			if b, ok := r.(budgetExceeded); ok {
-				h.fail("iteration bound: %s performed %d slot reads and %d slot writes (limit get=%d put=%d); it does not stop at its maximum number of attempts",
+				h.fail("termination: %s performed %d slot reads and %d slot writes and was still going (attempt limits get=%d put=%d); the call does not terminate",
 					what(), b.reads, b.writes, h.cfg.getAttempts, h.cfg.putAttempts)
 			}
 			panic(r)
@@ -592,21 +610,22 @@ func (h *harness) guarded(what func() string, fn func()) {
 // lookup performs one observed Get and applies the soundness clauses.
 func (h *harness) lookup(ki int) res {
 	p := h.probe
-	p.begin(int(h.cfg.getAttempts) + 4)
+	p.begin(h.hangGuard())
 	var rl local.Location
 	var err error
 	h.guarded(func() string { return fmt.Sprintf("Get(k%d)", ki) }, func() { rl, err = h.klm.Get(h.keys[ki]) })
 	if p.outOfRange != "" {
 		h.fail("Get(k%d): %s", ki, p.outOfRange)
 	}
+	// mechanism of the unchanged code, counted only (see the file comment)
 	if p.writes != 0 {
-		h.fail("Get(k%d) wrote %d slots; lookups are read-only", ki, p.writes)
+		h.st.mechGetWrote++
 	}
-	if p.reads > int(h.cfg.getAttempts) && !blackBoxOnly {
-		h.fail("iteration bound: Get(k%d) read %d slots, maximum get attempts is %d", ki, p.reads, h.cfg.getAttempts)
+	if p.reads > int(h.cfg.getAttempts) {
+		h.st.mechGetOverLimit++
 	}
-	if p.readAfterInvalid && !blackBoxOnly {
-		h.fail("Get(k%d) continued probing after it met an invalid record (read %d slots, first invalid one after %d); a lookup stops at the first invalid record", ki, p.reads, p.invalidAt)
+	if p.readAfterInvalid {
+		h.st.mechGetReadAfterInvalid++
 	}
 	if p.invalidSeen {
 		early := false
@@ -627,7 +646,7 @@ func (h *harness) lookup(ki int) res {
 			h.fail("Get(k%d) failed with %v", ki, err)
 		}
 		if p.reads == 0 {
-			h.fail("Get(k%d) answered NOT_FOUND without reading any slot", ki)
+			h.st.mechGetNoRead++
 		}
 		return res{}
 	}
@@ -707,7 +726,7 @@ func (h *harness) put(ki int, rel local.Location) (retryExact bool) {
 	}
 	m0 := h.mr.last
 	p := h.probe
-	p.begin(h.cfg.putAttempts + 4)
+	p.begin(h.hangGuard())
 	var err error
 	h.guarded(func() string { return fmt.Sprintf("Put(k%d,%s)", ki, l) }, func() { err = h.klm.Put(h.keys[ki], rel) })
 	m1 := m0
@@ -724,14 +743,17 @@ func (h *harness) put(ki int, rel local.Location) (retryExact bool) {
 	if p.outOfRange != "" {
 		h.fail("Put(k%d,%s): %s", ki, l, p.outOfRange)
 	}
-	if (p.reads > h.cfg.putAttempts || p.writes > h.cfg.putAttempts) && !blackBoxOnly {
-		h.fail("iteration bound: Put(k%d,%s) read %d and wrote %d slots, maximum put attempts is %d", ki, l, p.reads, p.writes, h.cfg.putAttempts)
+	// mechanism of the unchanged code, counted only (see the file comment);
+	// the property-level form of oldest-first displacement is asserted
+	// below on the lookup results ("discarded the entry ... NEWER").
+	if p.reads > h.cfg.putAttempts || p.writes > h.cfg.putAttempts {
+		h.st.mechPutOverLimit++
 	}
-	if p.readAfterInvalid && !blackBoxOnly {
-		h.fail("Put(k%d,%s) kept probing after it met an invalid (free) record", ki, l)
+	if p.readAfterInvalid {
+		h.st.mechPutReadAfterInvalid++
 	}
-	if p.nonMonotonic != "" && !blackBoxOnly {
-		h.fail("oldest-first displacement: Put(k%d,%s) overwrote a valid record by one that is not newer: %s", ki, l, p.nonMonotonic)
+	if p.nonMonotonic != "" {
+		h.st.mechPutNotNewer++
 	}
 	if p.displaced > 0 {
 		h.st.displacingPuts++
@@ -887,15 +909,20 @@ func (h *harness) get(ki int) {
 	h.swap()
 }
 
-// audit reads every slot of the table (below the decorator's counters) and
-// checks the state invariant that makes early termination sound: a valid
-// record (K, attempt a, L) sits in the slot its key hashes to, a is below
-// the get limit, L was stored for K, and every earlier slot of K's probe
-// sequence holds a valid record that is not older than L.
+// audit compares the table with the layout the unchanged code documents: a
+// valid record (K, attempt a, L) sits in the slot its record key hashes to, a
+// is below the get limit, L was stored for K, and every earlier slot of K's
+// probe sequence holds a valid record that is not older than L. None of this
+// is part of the property (it is the internal data layout); a deviation is
+// only counted (class mech_table_layout_differs). It reads the slots below
+// the decorator's counters and never writes.
 func (h *harness) audit() {
-	if blackBoxOnly {
-		return
+	if h.auditDeviates() {
+		h.st.mechAudit++
 	}
+}
+
+func (h *harness) auditDeviates() bool {
 	in := h.probe.inner
 	for s := 0; s < h.cfg.size; s++ {
 		rec, err := in.Get(s)
@@ -903,41 +930,35 @@ func (h *harness) audit() {
 			continue
 		}
 		if err != nil {
-			h.fail("audit: reading slot %d failed: %v", s, err)
+			return true
 		}
 		ki, ok := h.keyIdx[rec.RecordKey.Key]
 		if !ok {
-			h.fail("audit: slot %d holds a valid record for a key that was never stored", s)
+			return true
 		}
 		a := rec.RecordKey.Attempt
 		if a >= h.cfg.getAttempts {
-			h.fail("audit: slot %d holds a record of k%d at attempt %d, which no lookup can reach (maximum get attempts %d)", s, ki, a, h.cfg.getAttempts)
+			return true
 		}
 		rk := rec.RecordKey
 		if want := int(rk.Hash(h.cfg.hashInit) % uint64(h.cfg.size)); want != s {
-			h.fail("audit: record (k%d, attempt %d) sits in slot %d, its hash selects slot %d", ki, a, s, want)
+			return true
 		}
 		if rec.Location.BlockIndex < 0 || rec.Location.BlockIndex >= h.blocks.live() {
-			h.fail("audit: slot %d resolves to block index %d with %d live blocks", s, rec.Location.BlockIndex, h.blocks.live())
+			return true
 		}
 		l := loc{blk: rec.Location.BlockIndex + h.blocks.released, off: rec.Location.OffsetBytes, size: rec.Location.SizeBytes}
 		if !h.isStored(ki, l) {
-			h.fail("audit: slot %d holds k%d -> %s, which was never stored for that key", s, ki, l)
+			return true
 		}
 		for b := uint32(0); b < a; b++ {
 			pk := local.LocationRecordKey{Key: rk.Key, Attempt: b}
 			ps := int(pk.Hash(h.cfg.hashInit) % uint64(h.cfg.size))
 			prev, err := in.Get(ps)
-			if err == local.ErrLocationRecordInvalid {
-				h.fail("probe-sequence invariant: k%d -> %s is stored at attempt %d (slot %d) but the slot of attempt %d (slot %d) is invalid, so the entry is unreachable without having been reported as discarded", ki, l, a, s, b, ps)
-			}
-			if err != nil {
-				h.fail("audit: reading slot %d failed: %v", ps, err)
-			}
-			if relOlder(prev.Location, rec.Location) {
-				h.fail("probe-sequence invariant: k%d -> %s at attempt %d (slot %d) is newer than the record in the slot of attempt %d (slot %d: block index %d offset %d); everything further along a probe sequence must be older",
-					ki, l, a, s, b, ps, prev.Location.BlockIndex, prev.Location.OffsetBytes)
+			if err != nil || relOlder(prev.Location, rec.Location) {
+				return true
 			}
 		}
 	}
+	return false
 }
